@@ -65,6 +65,8 @@ const char *PROBES[] = {
 	"# note one\na = 1\n/* block\n two */ s = \"x\"\n##\nb = on\n", // parsed with annotations on
 	"one { x = 3 # tail\n}\nms \"a\\\"b\" { v = 'it\\'s' }\nsl += \"x\\\ny\"\n",
 	"old = 4\ngone = \"x\"\na = 2\n",
+	// texts whose first token is punctuation: the diagnostic quotes the token, which must be this parse's own
+	",\na = 1\n", "}\n", ")\n", "= 3\n", "+= 3\n", "{\n", "(\n", "a , 1\n", "l = {1 = 2}\n", "fn(a = b)\n",
 	"\n# spread over some lines\none {\n x = 7\n\n xl = {1,\n 2}\n}\nms \"t1\" {\n k = 3\n\n}\n",
 };
 const int NPROBES = sizeof(PROBES) / sizeof(PROBES[0]);
@@ -123,19 +125,23 @@ void emit_event(Rng &r, int kind, int cl, int ctx, json &steps, const json &sche
 		buf("include(\"/inc/deep0.conf\")\n");
 	else if (k == "include_self")
 		buf("include(\"/inc/self.conf\")\n");
-	else if (k == "int_range_parser")
-		buf("a = 99999999999999999999\n");
-	else if (k == "float_range_parser")
+	else if (k == "int_range_parser") {
+		buf(r.chance(1, 2) ? "a = 99999999999999999999\n" : "l += 99999999999999999999\n");
+		steps.back()["notrace"] = 1;
+	} else if (k == "float_range_parser") {
 		buf("f = 1e999\n");
-	else if (k == "range_setopt") {
+		steps.back()["notrace"] = 1;
+	} else if (k == "range_setopt") {
 		json s = step(cl, "setopt", ctx);
-		s["name"] = "a";
+		s["name"] = r.chance(1, 2) ? "a" : "l";
 		s["v"] = "99999999999999999999";
+		s["notrace"] = 1;
 		steps.push_back(s);
 	} else if (k == "range_setmulti") {
 		json s = step(cl, "setmulti", ctx);
 		s["name"] = "l";
 		s["vals"] = json::array({"1", "99999999999999999999"});
+		s["notrace"] = 1;
 		steps.push_back(s);
 	} else if (k == "bad_escape")
 		buf(r.chance(1, 2) ? "s = \"\\400\"\n" : "s = \"\\9\"\n");
@@ -443,6 +449,41 @@ JudgeOut judge(const json &plan)
 				out.viol.push_back({"O-append", "'" + name + " += ...' parsed into a re-used context must append to its current values [" + before + "] but the option now holds [" + after + "]: an earlier (aborted) parse left a trace", nullptr});
 		}
 
+	// ---- O-trace: a text / value that fails its range check leaves no trace in the context it was meant for
+	if (out.viol.empty())
+		for (size_t i = 0; i < plan["steps"].size(); i++) {
+			const json &st = plan["steps"][i];
+			if (!st.value("notrace", 0))
+				continue;
+			const OpResult *bp = nullptr, *prev = nullptr;
+			for (auto &o : base.ops) {
+				if (o.index == (int)i)
+					bp = &o;
+				else if (o.index < (int)i && o.client == st.value("cl", 0) && o.ctx == st.value("c", 0) && !o.dump.empty())
+					prev = &o;
+			}
+			if (!bp || !prev || bp->skipped || bp->ret == 0 || prev->op == "free" || bp->dump.empty())
+				continue;
+			out.k.add("probe.range_failure_trace_checked");
+			// values, counts and order - what a later parse or getter can see; the parser sets the modified marker and
+			// the temporary reset marker when it reads '=' / '+=', before the value is converted, and no outcome depends on them
+			auto values_only = [](std::string d) {
+				for (const char *m : {" R M [", " R [", " M ["}) {
+					size_t p = 0;
+					std::string mm = m;
+					while ((p = d.find(mm, p)) != std::string::npos)
+						d.replace(p, mm.size(), " [");
+				}
+				return d;
+			};
+			if (values_only(bp->dump) != values_only(prev->dump)) {
+				out.viol.push_back({"O-trace:" + bp->op, "op #" + std::to_string(i) + " (" + bp->op + ") failed its range check (ret=" + std::to_string(bp->ret) + ") but the context is not what it was before:\n  before: " +
+									  prev->dump.substr(0, 500) + "\n  after:  " + bp->dump.substr(0, 500),
+						    nullptr});
+				break;
+			}
+		}
+
 	// ---- process-wide resources: no stream may stay open, the include stack must be empty
 	if (out.viol.empty())
 		for (auto &c : base.conservation)
@@ -490,7 +531,7 @@ Property P = [] {
 		 "distinct = distinct event-kind sequences (the history), all non-trivial";
 	p.assumptions = {"the probe set and event texts are fixed by the generator; outcomes compared are return code, diagnostics (file,line) and the canonical dump",
 			 "O-scrub resets the scanner object's .data/.bss, cfg_yylval and errno between API calls; a correct library cannot observe that"};
-	p.probes = {"parse_begun_outside_INITIAL", "parse_failed_inside_included_file", "two_clients_interleaved", "rejected_probe_into_reused_context", "append_into_reused_context"};
+	p.probes = {"parse_begun_outside_INITIAL", "parse_failed_inside_included_file", "two_clients_interleaved", "rejected_probe_into_reused_context", "append_into_reused_context", "range_failure_trace_checked"};
 	p.components = {{"confuse.c", "real"}, {"lexer.l (flex 2.6.4 generated)", "real"}, {"glibc stdio/strtol/strtod", "real"}, {"allocator", "stub: accounting wrappers over the real heap"},
 			{"file namespace (fopen/stat)", "stub: in-memory tree"}, {"getenv", "stub: simulated environment"}, {"user callbacks", "stub: simulator parties"}, {"exit/abort/assert", "stub: recorded and unwound"}};
 	p.quick_seconds = 20;
